@@ -69,7 +69,7 @@ static void reload_after_failure(hwloc_topology_t t, unsigned variant, battery_f
 // below a memory object, a Machine that is not the root, cache attributes that contradict the cache type.  A document that loads although
 // it breaks one of these is not the cross-object inconsistency of finding F-C06-h: the importer's own check is gone.
 static const char *importer_validated_rule(const WFError &e) {
-  static const char *rules[] = {"memory obj with io children", "memory obj with normal children", "Machine not root", "cache attr mismatch", "icache attr mismatch"};
+  static const char *rules[] = {"memory obj with io children", "memory obj with normal children", "Machine not root", "cache attr mismatch", "icache attr mismatch", "PU cpuset != {os_index}", "NUMA nodeset != {os_index}"};   // (the last two: the import of every PU / NUMA node object checks its own set against its os_index)
   for (auto &m : e.msgs) for (const char *r : rules) if (m.compare(0, strlen(r), r) == 0) return r;
   return NULL;
 }
